@@ -262,6 +262,24 @@ Definition SrcTie_case (c : c18_in * res c18_obs) : N :=
   end.
 """,
     },
+    "C03": {
+        "targets": ["texttable/decoration/strings.go:WithinWidthAligned"]
+                   + ["texttable/decoration/emit.go:" + f for f in (
+                       "commonTemplateLine", "LineHeaderTop", "LineHeaderBodySep", "LineBodyTop", "LineBottom",
+                       "LineSeparator", "LineHeaderBlanks", "LineBodyBlanks", "HeaderDividers", "BodyDividers",
+                       "commonRenderedLine", "HeaderLineRendered", "BodyLineRendered")],
+        "generated": "Generated/EmitSrc.v",
+        "proofs": ["Proofs/EmitSrcTie.v"],
+        "theorems": ["c03_source_is_model", "c03_source_any_eol", "c03_source_rule_line"],
+        "eval": None,     # no evaluation glue: a broken tie is recorded, the hand model and the correspondence decide
+    },
+    "C04": {
+        "targets": ["texttable/decoration/strings.go:WithinWidthAligned"],
+        "generated": "Generated/WidthStrSrc.v",
+        "proofs": ["Proofs/WidthStrSrcTie.v"],
+        "theorems": ["c04_source_is_model", "c04_source_slot"],
+        "eval": None,
+    },
 }
 TIE_LP = "SrcTie"    # logical path of the fresh copies
 
